@@ -19,6 +19,8 @@ from .common import world, short
 from .c11 import subterms
 
 
+CONFIG_SENSITIVE = True      # thorough tier: analysed under all four build configurations
+
 def run(chk):
     chk.rule("R14.1", "from_public_key_recovery forwards its parameters unchanged")
     chk.rule("R14.2", "signature decoded with generator.order(); digest through the shared converter")
